@@ -9,6 +9,7 @@ import (
 	"context"
 	"errors"
 	"fmt"
+	"os"
 	"sort"
 	"strings"
 	"time"
@@ -422,8 +423,24 @@ func scenario(c cfg, mk func() transport) *mcx.Scenario {
 func main() {
 	r := ev.Start("C03", "model_checking")
 	var scs []*mcx.Scenario
+	probe := os.Getenv("VERIF_C03_PROBE") // sizing of tiers only: "transport,K,con,preempt,env"
 	for _, t := range transports() {
 		mk := t.mk
+		if probe != "" {
+			var tn string
+			var k, p, e int
+			var con bool
+			f := strings.Split(probe, ",")
+			tn = f[0]
+			fmt.Sscan(f[1], &k)
+			con = f[2] == "true"
+			fmt.Sscan(f[3], &p)
+			fmt.Sscan(f[4], &e)
+			if t.name == tn {
+				scs = append(scs, scenario(cfg{T: t.name, K: k, CON: con, Preempt: p, Env: e}, mk))
+			}
+			continue
+		}
 		if t.name == "dtls-session" {
 			// same conn code as udp; what differs is the real dtls/server.Session (read loop, writes): a reduced set
 			scs = append(scs, scenario(cfg{T: t.name, K: 2, CON: true, Preempt: 0, Env: 1}, mk))
@@ -448,11 +465,12 @@ func main() {
 				continue
 			}
 			scs = append(scs, scenario(cfg{T: t.name, K: 3, CON: con, TokFamily: true, Preempt: 0, Env: ev.Pick(r, 0, 1)}, mk))
-			scs = append(scs, scenario(cfg{T: t.name, K: 3, CON: con, Preempt: ev.Pick(r, 0, 1), Env: ev.Pick(r, map[bool]int{true: 0, false: 1}[con], map[bool]int{true: 1, false: 2}[con])}, mk))
+			// (sizes measured: udp K=3 CON with preemption 1 exceeds 20 M executions even without deviations; preemption 0 / 1 deviation = 5.3 M)
+			scs = append(scs, scenario(cfg{T: t.name, K: 3, CON: con, Preempt: ev.Pick(r, 0, map[bool]int{true: 0, false: 1}[con]), Env: ev.Pick(r, map[bool]int{true: 0, false: 1}[con], map[bool]int{true: 1, false: 2}[con])}, mk))
 			scs = append(scs, scenario(cfg{T: t.name, K: 2, CON: con, BlockWise: true, BigBody: true, Preempt: ev.Pick(r, 0, 1), Env: 1}, mk))
 			if r.Thorough() {
 				// (CON exchanges have ~4x the choice points of NON ones: preemption 2 with one deviation, or two deviations with preemption 1)
-				scs = append(scs, scenario(cfg{T: t.name, K: 2, CON: con, Preempt: 2, Env: map[bool]int{true: 1, false: 2}[con]}, mk))
+				scs = append(scs, scenario(cfg{T: t.name, K: 2, CON: con, Preempt: 2, Env: map[bool]int{true: 0, false: 2}[con]}, mk))
 				if con {
 					scs = append(scs, scenario(cfg{T: t.name, K: 2, CON: con, Preempt: 1, Env: 2}, mk))
 				}
